@@ -57,7 +57,8 @@ func CellOf(tbl, col string, k int) Ex {
 }
 
 // scalar sub-query around an expression: same value, evaluated through Select
-func SubQ(a Ex) Ex { return Ex{"(SELECT " + a.SQL + ")", a.Tok} }
+// (FROM DUAL: a SELECT without FROM reads the session's STDIN table when there is one)
+func SubQ(a Ex) Ex { return Ex{"(SELECT " + a.SQL + " FROM DUAL)", a.Tok} }
 
 // ---------- tables ----------
 
@@ -174,7 +175,7 @@ func Program(sql, wrap string) string {
 	case "while":
 		return fmt.Sprintf("VAR @vw%d := 0; WHILE @vw%d < 1 DO %s; @vw%d := @vw%d + 1; END WHILE;", n, n, sql, n, n)
 	case "func":
-		return fmt.Sprintf("DECLARE vfn%d FUNCTION () AS BEGIN %s; RETURN 1; END; SELECT vfn%d();", n, sql, n)
+		return fmt.Sprintf("DECLARE vfn%d FUNCTION () AS BEGIN %s; RETURN 1; END; SELECT vfn%d() FROM DUAL;", n, sql, n)
 	case "prepare":
 		return fmt.Sprintf("PREPARE vps%d FROM %s; EXECUTE vps%d; DISPOSE PREPARE vps%d;", n, option.QuoteString(sql), n, n)
 	}
@@ -1472,7 +1473,7 @@ func (r *Runner) genCreate(t *Tab, f *Fault) *Stmt {
 		up := strings.ToUpper(t.Name) + g.Pick(".CSV", ".csv", ".Csv")
 		s.SQL = fmt.Sprintf("CREATE TABLE `%s` (a, b)", up)
 		if g.Intn(2) == 0 {
-			s.SQL = fmt.Sprintf("CREATE TABLE `%s` (a, b) AS SELECT 1, 2", up)
+			s.SQL = fmt.Sprintf("CREATE TABLE `%s` (a, b) AS SELECT 1, 2 FROM DUAL", up)
 		}
 		return s // law-only: the model's table names are exact
 	case "exists":
@@ -1721,11 +1722,6 @@ func (r *Runner) Exec(st *Stmt, cancelAt int64) *Outcome {
 		if cancelAt == 0 && r.Wraps > 0 && r.G.Intn(100) < r.Wraps {
 			wrap = WrapKinds[r.G.Intn(len(WrapKinds))]
 		}
-	}
-	if wrap == "func" && (strings.Contains(" "+st.Op+" ", " stdin ") || strings.Contains(st.Op, "$stdin.")) {
-		// SELECT fn() whose body changed STDIN fails with the stdin lock time-out after the body's statement took
-		// effect (the re-lock defect described at Outcome.TouchedStdin): no function bodies around STDIN statements
-		wrap = "if"
 	}
 	st.Prog = Program(st.SQL, wrap)
 	stdout, err := r.Pr.Exec(st.Prog)
@@ -2386,6 +2382,7 @@ func NestedCorpus(g *hc.Gen, o *hc.Out, root string) {
 		{"m2", false, []string{"id", "p", "q"}, rows},
 	})
 	r.OnlyFailureLaws = false
+	r.dropTwin()
 	defer r.Close()
 	m1, f1, m2 := r.Tabs[0], r.Tabs[1], r.Tabs[2]
 	for _, wrap := range WrapKinds {
@@ -2547,6 +2544,13 @@ func CommitCorpus(g *hc.Gen, o *hc.Out, root string) {
 	o.Law("commit_scan_did_not_complete", "150 context checks")
 }
 
+func (r *Runner) dropTwin() {
+	if r.Twin != nil {
+		r.Twin.Close()
+		r.Twin = nil
+	}
+}
+
 // StdinCorpus runs first on every c05 run: the session's STDIN table — an updatable in-memory table that is neither a
 // file nor a DECLAREd temporary table — as the target of every statement kind (and as one of the tables of the
 // multi-table forms), at the top level and inside nested blocks, read back in the same session after every statement.
@@ -2557,6 +2561,7 @@ func StdinCorpus(g *hc.Gen, o *hc.Out, root string) {
 		{"m1", false, []string{"id", "p", "q"}, rows},
 	})
 	r.OnlyFailureLaws = false
+	r.dropTwin()
 	defer r.Close()
 	sd, f1, m1 := r.Tabs[0], r.Tabs[1], r.Tabs[2]
 	for round, wrap := range []string{"plain", "if", "func", "plain"} {
@@ -2664,7 +2669,7 @@ func CreateCorpus(g *hc.Gen, o *hc.Out, root string) {
 	}
 	failing := []*Stmt{
 		law("CREATE TABLE `F1.CSV` (a, b)"),
-		law("CREATE TABLE `F2.csv` (a, b) AS SELECT 1, 2"),
+		law("CREATE TABLE `F2.csv` (a, b) AS SELECT 1, 2 FROM DUAL"),
 		law("CREATE TABLE `f1.CSV` (x)"),
 		{Kind: "create", SQL: "CREATE TABLE `f1.csv` (a, b)", Op: "create f1 2 a b", Targets: []string{}, Wrap: "plain", Fault: &Fault{Kind: "exists"}},
 		{Kind: "create", SQL: "CREATE TABLE tdup (a, b, a)", Op: "create tdup 3 a b a", Targets: []string{}, Wrap: "plain", Fault: &Fault{Kind: "dup"}},
